@@ -3,7 +3,24 @@ import json
 from pathlib import Path
 
 VERIF = Path(__file__).resolve().parent.parent
-from manifest_data import CHECKS, NOT_YET  # noqa: E402
+import ast
+from manifest_data import CLAIMED, NOT_YET, COMMON_NOTE  # noqa: E402
+
+
+def module_manifest(pid):
+    """the literal `MANIFEST = {...}` dict of harness/props/<pid>.py (text, note, technique)"""
+    src = (VERIF / "harness" / "props" / (pid.lower() + ".py")).read_text()
+    for node in ast.parse(src).body:
+        if isinstance(node, ast.Assign) and any(getattr(t, "id", None) == "MANIFEST" for t in node.targets):
+            return ast.literal_eval(node.value)
+    raise SystemExit("no MANIFEST dict in props/%s.py" % pid.lower())
+
+
+CHECKS = {}
+for pid in CLAIMED:
+    d = module_manifest(pid)
+    d["note"] = COMMON_NOTE + d.get("note", "")
+    CHECKS[pid] = d
 
 BASE_CMD = "cd /repo && /venv/bin/python -m pytest -ra -q -p no:cacheprovider --timeout=900 --continue-on-collection-errors"
 
